@@ -258,9 +258,11 @@ func cmdCheck(args []string) int {
 			reportViolation(prop, o, r)
 		}
 		// vacuity: obligation count must not fall below the recorded one
-		if want, ok := expect[o.Key]; ok && counts[o.Key] < want {
+		// (a refactoring may legitimately remove some return sites or panic sites: only a collapse
+		// of the obligation count - to under half of what the pinned tree generates - is vacuity)
+		if want, ok := expect[o.Key]; ok && counts[o.Key]*2 < want {
 			violations++
-			rp := writeReplay(prop, o.Key+"#count", map[string]any{"obligation": o.Key + "#obligation-count", "note": fmt.Sprintf("expected at least %d obligations, generated %d", want, counts[o.Key])})
+			rp := writeReplay(prop, o.Key+"#count", map[string]any{"obligation": o.Key + "#obligation-count", "note": fmt.Sprintf("the pinned tree generates %d obligations for this function, this run only %d", want, counts[o.Key])})
 			fmt.Printf("VIOLATION property=%s replay=%s no-failing-input-found\n", prop, rp)
 		}
 		fnEv = append(fnEv, fe)
